@@ -241,6 +241,9 @@ pub fn exact_alphabet(kind: crate::subjects::Kind) -> Vec<Op> {
     } else {
         v.extend([Op::S(1.0), Op::S(0.0), Op::S(-1.0), Op::S(3.0)]);
     }
+    if kind.has_scalar() && kind.bar_native() {
+        v.push(Op::S(0.0));
+    }
     if kind.has_scalar() {
         // both zeros: equal under ==, different bits (cached-extreme indices may legitimately differ,
         // outputs of a clone may not)
